@@ -902,5 +902,6 @@ func main() {
 	chk.Sample("reader", fcase{Kind: "upce", Num: "04252610", Reader: "upce", Scale: 1, Path: "row"})
 	chk.Sample("reader", fcase{Kind: "ean8", Num: "96385074", Reader: "ean8", Scale: 1, Path: "row"})
 	chk.Sample("writer", fcase{Kind: "writer", Sym: "upce", Num: "0425261"})
+	runHistory()
 	chk.Finish()
 }
